@@ -470,8 +470,18 @@ def zero_filter(check, prog, canon):
                       'dead pixel on an edge is filled for one pair of edges but not '
                       'the other' % show(t)[:200])
     else:
-        over_xy = any(x[0] == 'comp' and x[3] and x[3][0][1] == ('const', 'xy')
-                      for x in subterms(body))
+        # (one list built over the two axis names: a comprehension, list(<gen>)
+        # or a loop that appends)
+        from .common import list_builder
+        AXES = (('const', 'xy'), ('const', 'yx'),
+                ('list', (('const', 'x'), ('const', 'y'))),
+                ('tuple', (('const', 'x'), ('const', 'y'))),
+                ('list', (('const', 'y'), ('const', 'x'))),
+                ('tuple', (('const', 'y'), ('const', 'x'))))
+        over_xy = any(
+            (lambda lb: lb is not None and lb[1] in AXES and
+             any(y in interp for y in subterms(lb[0])))(list_builder(x))
+            for x in subterms(body) if x[0] in ('comp', 'loop', 'call'))
         check.require(over_xy and len(interp) >= 1, 'T4-zero-filter',
                       'zero_filter symmetry',
                       'interpolates along each of x and y in one comprehension '
